@@ -49,48 +49,48 @@ def new_interp(facts=None, flags=None, repo=None, summaries=True):
 
 
 def factor(I, R, Dd, name="f", cls="ConjugateFactor", nu=True, ln_beta=True):
-    kw = dict(Lambda=nf.atom(f"Lambda({name})", [R, Dd, Dd], sym=True))
+    kw = dict(Lambda=nf.atom(f"Lambda({name})", [R, Dd, Dd], sym=True, owner=name))
     if nu:
-        kw["nu"] = nf.atom(f"nu({name})", [R, Dd])
+        kw["nu"] = nf.atom(f"nu({name})", [R, Dd], owner=name)
     if ln_beta:
-        kw["ln_beta"] = nf.atom(f"ln_beta({name})", [R])
+        kw["ln_beta"] = nf.atom(f"ln_beta({name})", [R], owner=name)
     return I.construct(cls, kw)
 
 
 def onerank(I, R, Dd, name="f", g=True, nu=True, ln_beta=True):
-    kw = dict(v=nf.atom(f"v({name})", [R, Dd]))
+    kw = dict(v=nf.atom(f"v({name})", [R, Dd], owner=name))
     if g:
-        kw["g"] = nf.atom(f"g({name})", [R])
+        kw["g"] = nf.atom(f"g({name})", [R], owner=name)
     if nu:
-        kw["nu"] = nf.atom(f"nu({name})", [R, Dd])
+        kw["nu"] = nf.atom(f"nu({name})", [R, Dd], owner=name)
     if ln_beta:
-        kw["ln_beta"] = nf.atom(f"ln_beta({name})", [R])
+        kw["ln_beta"] = nf.atom(f"ln_beta({name})", [R], owner=name)
     return I.construct("OneRankFactor", kw)
 
 
 def linear_factor(I, R, Dd, name="f", ln_beta=True):
-    kw = dict(nu=nf.atom(f"nu({name})", [R, Dd]))
+    kw = dict(nu=nf.atom(f"nu({name})", [R, Dd], owner=name))
     if ln_beta:
-        kw["ln_beta"] = nf.atom(f"ln_beta({name})", [R])
+        kw["ln_beta"] = nf.atom(f"ln_beta({name})", [R], owner=name)
     return I.construct("LinearFactor", kw)
 
 
 def constant_factor(I, R, Dd, name="f"):
-    return I.construct("ConstantFactor", dict(ln_beta=nf.atom(f"ln_beta({name})", [R]), num_dim=Dd))
+    return I.construct("ConstantFactor", dict(ln_beta=nf.atom(f"ln_beta({name})", [R], owner=name), num_dim=Dd))
 
 
 def measure(I, R, Dd, name="u", warm=False, cls="GaussianMeasure", diag=False):
     """cold (Sigma None) or warm (Sigma, log-determinants given and consistent) Gaussian measure."""
-    kw = dict(nu=nf.atom(f"nu({name})", [R, Dd]), ln_beta=nf.atom(f"ln_beta({name})", [R]))
+    kw = dict(nu=nf.atom(f"nu({name})", [R, Dd], owner=name), ln_beta=nf.atom(f"ln_beta({name})", [R], owner=name))
     if diag:
         kw["Lambda"] = diag_matrix(f"Lambda({name})", R, Dd)
     else:
-        kw["Lambda"] = nf.atom(f"Lambda({name})", [R, Dd, Dd], sym=True)
+        kw["Lambda"] = nf.atom(f"Lambda({name})", [R, Dd, Dd], sym=True, owner=name)
     if warm:
         if diag:
             raise nf.Undecided("warm diagonal measure")
-        kw["Sigma"] = nf.atom(f"Sigma({name})", [R, Dd, Dd], sym=True)
-        lds = nf.atom(f"ln_det_Sigma({name})", [R])
+        kw["Sigma"] = nf.atom(f"Sigma({name})", [R, Dd, Dd], sym=True, owner=name)
+        lds = nf.atom(f"ln_det_Sigma({name})", [R], owner=name)
         kw["ln_det_Sigma"] = lds
         kw["ln_det_Lambda"] = nf.neg(lds)
         declare_pair(f"Sigma({name})", f"Lambda({name})", f"ln_det_Sigma({name})")
@@ -99,25 +99,25 @@ def measure(I, R, Dd, name="u", warm=False, cls="GaussianMeasure", diag=False):
 
 def diag_matrix(name, R, Dd):
     """a matrix atom with the diagonal precondition:  name[r,a,b] = diag(name)[r,a] * delta[a,b]"""
-    vec = nf.atom(f"diag({name})", [R, Dd])
+    vec = nf.atom(f"diag({name})", [R, Dd], owner=name.split("(")[-1].rstrip(")"))
     e = nf.eye(Dd)
     return nf.mul(nf.expand_dims(vec, ["k"] * len(vec.axes) + [None]), e)
 
 
 def pdf(I, R, Dd, name="p", cls="GaussianPDF", args="full", diag=False):
     """density; args: 'Sigma' | 'Sigma+Lambda' | 'full' (Sigma, Lambda, ln_det_Sigma all given, consistent)."""
-    kw = dict(mu=nf.atom(f"mu({name})", [R, Dd]))
+    kw = dict(mu=nf.atom(f"mu({name})", [R, Dd], owner=name))
     if diag:
         kw["Sigma"] = diag_matrix(f"Sigma({name})", R, Dd)
         if args != "Sigma":
             raise nf.Undecided("diag pdf with explicit Lambda")
         return I.construct(cls, kw)
-    kw["Sigma"] = nf.atom(f"Sigma({name})", [R, Dd, Dd], sym=True)
+    kw["Sigma"] = nf.atom(f"Sigma({name})", [R, Dd, Dd], sym=True, owner=name)
     if args in ("Sigma+Lambda", "full"):
-        kw["Lambda"] = nf.atom(f"Lambda({name})", [R, Dd, Dd], sym=True)
+        kw["Lambda"] = nf.atom(f"Lambda({name})", [R, Dd, Dd], sym=True, owner=name)
         declare_pair(f"Sigma({name})", f"Lambda({name})", f"ln_det_Sigma({name})" if args == "full" else None)
         if args == "full":
-            kw["ln_det_Sigma"] = nf.atom(f"ln_det_Sigma({name})", [R])
+            kw["ln_det_Sigma"] = nf.atom(f"ln_det_Sigma({name})", [R], owner=name)
     return I.construct(cls, kw)
 
 
@@ -125,17 +125,17 @@ def conditional(I, R, Dy, Dx, name="c", cls="ConditionalGaussianPDF", args="full
     kw = {}
     tab = I.prog.field_table(cls)
     if tab.get("M", {}).get("init"):
-        kw["M"] = nf.atom(f"M({name})", [R, Dy, Dx])
+        kw["M"] = nf.atom(f"M({name})", [R, Dy, Dx], owner=name)
         if b:
-            kw["b"] = nf.atom(f"b({name})", [R, Dy])
+            kw["b"] = nf.atom(f"b({name})", [R, Dy], owner=name)
     diag = "Diag" in cls
     if diag:
         kw["Sigma"] = diag_matrix(f"Sigma({name})", R, Dy)
         return I.construct(cls, kw)
-    kw["Sigma"] = nf.atom(f"Sigma({name})", [R, Dy, Dy], sym=True)
+    kw["Sigma"] = nf.atom(f"Sigma({name})", [R, Dy, Dy], sym=True, owner=name)
     if args == "full":
-        kw["Lambda"] = nf.atom(f"Lambda({name})", [R, Dy, Dy], sym=True)
-        kw["ln_det_Sigma"] = nf.atom(f"ln_det_Sigma({name})", [R])
+        kw["Lambda"] = nf.atom(f"Lambda({name})", [R, Dy, Dy], sym=True, owner=name)
+        kw["ln_det_Sigma"] = nf.atom(f"ln_det_Sigma({name})", [R], owner=name)
         declare_pair(f"Sigma({name})", f"Lambda({name})", f"ln_det_Sigma({name})")
     return I.construct(cls, kw)
 
